@@ -34,8 +34,20 @@ def run(tier):
             p.update(py("a", *fa, epoch=spell % 2, v=spell // 2 % 2, spell=spell))
             p.update(py("b", *fb, epoch=0, v=0, spell=spell + 1))
             jobs.append(dict(base, harness="VerifC02PyPI", params=p))
+    # Maven: pairs of templates of the C02 domain against the ComparableVersion transcription
+    # templates 5, 9, 12 (a qualifier or number joined by '.' after a qualifier) are left out: Maven 3.6 and 3.8.7 order them differently
+    mts = [1, 4, 6, 7, 10, 14, 15, 21, 24] if q else [t for t in range(26) if t not in (5, 9, 12)]
+    for ta, tb in itertools.product(mts, repeat=2):
+        jobs.append(dict(base, harness="VerifC02Maven", params={"ta": ta, "tb": tb}))
+    # long all-digit prerelease identifiers (npm, Cargo, Go)
+    for sys in (1, 2, 4):
+        for ia, ib in itertools.product(range(8), repeat=2):
+            if q and (ia + ib + sys) % 2:
+                continue
+            jobs.append(dict(base, harness="VerifC02LongNumeric", params={"sys": sys, "ia": ia, "ib": ib}))
     return run_property("C02", tier, [Group("semver", jobs)],
-                        required_covers=["reference says less", "reference says equal"],
+                        required_covers=["reference says less", "reference says equal", "a ten-digit numeric identifier"],
                         assumptions=["oracles are transcriptions of SemVer 2.0 §11 (npm, Cargo, Go), NuGet SemVer2 and packaging's _cmpkey (PyPI) over template fields; the real tools are not run",
-                                     "Maven (ComparableVersion) and RubyGems (Gem::Version) orderings are not decided: no transcription was built for them"],
+                                     "Maven: a transcription of ComparableVersion.parseVersion/compareTo (3.6.x-3.8.6 algorithm) on the version text, over template pairs of the property's Maven domain; templates with a qualifier or number joined by '.' after the numeric prefix are left out because Maven 3.6 and 3.8.7 order them differently; counterexamples were adjudicated with the maven-artifact 3.8.7 jar on this image",
+                                     "RubyGems (Gem::Version) ordering is not decided: no transcription was built"],
                         bounds={"semver": "3 components, <=2 prerelease identifiers of <=%d bytes" % (2 if q else 3), "pypi": "release <=4 single-digit components, single-digit numbers, one local segment"})
